@@ -27,7 +27,9 @@ Record Inv (st : lst) : Prop := mkInv {
   i_qn : NoDup (map fst (l_q st));
   i_qi : NoDup (map snd (l_q st));
   i_len : forall a n, alook a (l_len st) = Some n -> a < l_next st;
-  i_ret : forall g, In g (l_ret st) -> exists r m, g = Rg BM m /\ alook r (l_rf st) = Some g
+  i_ret : forall g, In g (l_ret st) -> exists r m, g = Rg BM m /\ alook r (l_rf st) = Some g;
+  i_alen : List.length (l_act st) = NREGS;
+  i_mlen : List.length (l_mused st) = NREGS
 }.
 
 Record Ext (st st' : lst) : Prop := mkExt {
@@ -58,7 +60,7 @@ Lemma Inv_same : forall st st',
   l_ret st' = l_ret st -> l_rf st' = l_rf st -> l_lv st' = l_lv st -> l_len st' = l_len st ->
   Inv st -> Inv st'.
 Proof.
-  intros st st' E1 E2 E3 E4 E5 E6 E7 E8 [A B C C' D E F G].
+  intros st st' E1 E2 E3 E4 E5 E6 E7 E8 [A B C C' D E F G LA LM].
   constructor; rewrite ?E1, ?E2, ?E3, ?E4, ?E5, ?E6, ?E7, ?E8; assumption.
 Qed.
 Lemma Ext_same : forall st st',
@@ -85,10 +87,11 @@ Qed.
 
 Lemma Inv_take : forall st t s1, take st = Ok (t, s1) -> Inv st -> Inv s1.
 Proof.
-  intros st t s1 H [A B C C' D E F G]. destruct (take_other_fields _ _ _ H) as (E2 & E3 & E4 & E5 & E6 & E7 & E8 & _).
+  intros st t s1 H [A B C C' D E F G LA LM]. destruct (take_other_fields _ _ _ H) as (E2 & E3 & E4 & E5 & E6 & E7 & E8 & _).
   apply take_facts in H. destruct H as (Hf & Ha & _).
   constructor; rewrite ?E2, ?E3, ?E4, ?E5, ?E6, ?E7, ?E8; try assumption.
-  intros v r Hv. rewrite Ha. apply act_true_after_set. eauto.
+  - intros v r Hv. rewrite Ha. apply act_true_after_set. eauto.
+  - rewrite Ha, set_nth_length. exact LA.
 Qed.
 
 Lemma Inv_release_all_same_act : forall st st', Inv st ->
@@ -191,7 +194,7 @@ Qed.
 
 Lemma Inv_declare : forall a n init st st1, declare a n init st = Ok st1 -> Inv st -> Inv st1 /\ Ext st st1.
 Proof.
-  intros a n init st st1 H [A B C C' D E F G].
+  intros a n init st st1 H [A B C C' D E F G LA LM].
   destruct (declare_facts _ _ _ _ _ H) as (Ea & En & El & _ & E1 & E2 & E3 & E4 & E5 & E6).
   split.
   - constructor; rewrite ?E1, ?E2, ?E3, ?E4, ?E5, ?E6; try assumption.
@@ -212,7 +215,7 @@ Qed.
 
 Lemma Inv_deactivate : forall q st, Inv st -> Inv (deactivate q st).
 Proof.
-  intros q st [A B C C' D E F G]. unfold deactivate. constructor; cbn; try assumption.
+  intros q st [A B C C' D E F G LA LM]. unfold deactivate. constructor; cbn; try assumption.
   - apply adel_nodup_fst. assumption.
   - apply adel_nodup_snd. assumption.
 Qed.
@@ -222,7 +225,7 @@ Proof. intros. unfold deactivate. constructor; cbn; auto using sub_refl, incl_re
 Lemma low_meas_false_inv : forall q ip st m c st1,
   low_meas q ip false st = Ok (m, c, st1) -> Inv st -> Inv st1 /\ Ext st st1.
 Proof.
-  intros q ip st m c st1 Em [A B C C' D E F G].
+  intros q ip st m c st1 Em [A B C C' D E F G LA LM].
   destruct (low_meas_facts _ _ _ _ _ _ _ Em) as (id & Eq & Hm & Q1 & A1 & N1 & R1 & L1 & Le1 & D1 & M1 & Rt1 & _).
   split.
   - constructor; rewrite ?A1, ?N1, ?R1, ?L1, ?Le1, ?M1, ?Rt1, ?Q1; try assumption.
@@ -243,7 +246,7 @@ Ltac inv_ok H := inversion H; subst; clear H.
 
 Lemma Inv_bind_loop : forall st r s1 v, take st = Ok (r, s1) -> Inv st -> Inv (bind_lvr v r s1).
 Proof.
-  intros st r s1 v Ht I. assert (I1 := Inv_take _ _ _ Ht I). destruct I1 as [A B C C' D E F G].
+  intros st r s1 v Ht I. assert (I1 := Inv_take _ _ _ Ht I). destruct I1 as [A B C C' D E F G LA LM].
   unfold bind_lvr. constructor; cbn; try assumption.
   intros v' r' H. destruct (Nat.eqb v' v) eqn:Ev.
   - inversion H; subst. apply take_facts in Ht. destruct Ht as (Hf & Ha & _). rewrite Ha.
@@ -261,10 +264,11 @@ Proof.
   assert (Ha : l_act (release r (with_lvs s2 (l_lv st))) = l_act st).
   { cbn. rewrite (x_act _ _ X). cbn. apply take_facts in Ht. destruct Ht as (Hf & Ha & _).
     rewrite Ha. apply set_nth_undo. exact Hf. }
-  destruct I as [A B C C' D E F G]. destruct I2 as [A2 B2 C2 C2' D2 E2' F2 G2]. destruct X as [X1 X2 X3 X4 X5 X6 X7].
+  destruct I as [A B C C' D E F G LA LM]. destruct I2 as [A2 B2 C2 C2' D2 E2' F2 G2 LA2 LM2]. destruct X as [X1 X2 X3 X4 X5 X6 X7].
   cbn in X1, X2, X3, X4, X5, X6, X7. split.
   - constructor; cbn [release with_lvs with_act l_lv l_rf l_ret l_mused l_q l_len l_next]; try assumption.
-    intros v' r' H. fold (release r (with_lvs s2 (l_lv st))). rewrite Ha. apply (A _ _ H).
+    + intros v' r' H. fold (release r (with_lvs s2 (l_lv st))). rewrite Ha. apply (A _ _ H).
+    + fold (release r (with_lvs s2 (l_lv st))). rewrite Ha. exact LA.
   - apply mkExt.
     + reflexivity.
     + exact Ha.
@@ -285,7 +289,7 @@ Proof.
   apply stmt_block_ind; unfold facts_stmt, facts_block.
   - (* SNewQubit *) intros q _ _ st c st' H I. cbn [lower_stmt] in H.
     destruct (alook q (l_q st)) eqn:Eq; [discriminate|]. inv_ok H. split.
-    + destruct I as [A B C C' D E F G]. constructor; cbn; try assumption.
+    + destruct I as [A B C C' D E F G LA LM]. constructor; cbn; try assumption.
       * rewrite map_app. cbn. apply nodup_app_one; [assumption|]. apply alook_none_notin. exact Eq.
       * rewrite map_app. cbn. apply nodup_app_one; [assumption|]. apply new_qubit_id_fresh.
     + constructor; cbn; auto using sub_refl, incl_refl.
@@ -310,7 +314,7 @@ Proof.
     destruct (alook r (l_rf st)) eqn:Er; [discriminate|].
     destruct (low_meas q ip true st) as [[[m c0] s1]|e] eqn:Em; cbn [bind] in H; [|discriminate]. inv_ok H.
     destruct (low_meas_facts _ _ _ _ _ _ _ Em) as (id & Eq & Hm & Q1 & A1 & N1 & R1 & L1 & Le1 & D1 & M1 & Rt1 & _).
-    destruct I as [A B C C' D E F G]. split.
+    destruct I as [A B C C' D E F G LA LM]. split.
     + constructor; cbn [bind_rf l_lv l_act l_rf l_ret l_mused l_q l_len l_next];
         rewrite ?A1, ?N1, ?R1, ?L1, ?Le1, ?M1, ?Rt1, ?Q1; try assumption.
       * intros r' m' H'. cbn in H'. destruct (Nat.eqb r' r) eqn:Ex.
@@ -331,6 +335,7 @@ Proof.
         -- destruct (G _ Hg) as (r' & m' & Em' & Hr'). exists r', m'. split; [exact Em'|]. cbn.
            destruct (Nat.eqb r' r) eqn:Ex; [apply Nat.eqb_eq in Ex; subst; congruence|exact Hr'].
         -- exists r, m. split; [reflexivity|]. cbn. rewrite Nat.eqb_refl. reflexivity.
+      * rewrite set_nth_length. exact LM.
     + constructor; cbn [bind_rf l_lv l_act l_rf l_ret l_mused l_q l_len l_next];
         rewrite ?A1, ?N1, ?R1, ?L1, ?Le1, ?M1, ?Rt1; auto using sub_refl.
       * apply sub_cons_fresh. exact Er.
@@ -417,6 +422,8 @@ Proof.
       eapply Ext_trans; [exact X2|]. eapply Ext_trans; [eapply Ext_sba; eauto|exact X4].
   - (* SEpr *) intros k body IH Hp He. discriminate.
   - (* SFlush *) intros _ _ st c st' H. discriminate.
+  - intros a b n o m Hw. discriminate.
+  - intros q ip a b n Hw. discriminate.
   - intros _ _ st c st' H I. inv_ok H. split; [assumption|apply Ext_refl].
   - intros s IHs b IHb Hp He st c st' H I. cbn [bplain bnoepr] in Hp, He.
     apply andb_prop in Hp. destruct Hp as [Hp1 Hp2]. apply andb_prop in He. destruct He as [He1 He2].
